@@ -3,7 +3,7 @@ use super::*;
 use crate::choose::{Canon, Rng};
 use std::collections::BTreeSet;
 
-pub struct Vocab { pub classes: Vec<Vec<String>>, pub ord_class: usize, pub zero_class: usize, pub zeros: Vec<&'static str>, pub number_words: Vec<String>, pub linking: Vec<&'static str>, pub fillers: Vec<&'static str>, pub conj: &'static str, pub sep: &'static str }
+pub struct Vocab { pub classes: Vec<Vec<String>>, pub ord_class: usize, pub zero_class: usize, pub zeros: Vec<&'static str>, pub number_words: Vec<String>, pub linking: Vec<&'static str>, pub fillers: Vec<&'static str>, pub conj: &'static str, pub sep: &'static str, pub conj_alts: Vec<&'static str> }
 
 pub fn linking(lang: &str) -> Vec<&'static str> {
     match lang {
@@ -19,13 +19,13 @@ pub fn linking(lang: &str) -> Vec<&'static str> {
 }
 pub fn fillers(lang: &str) -> Vec<&'static str> {
     match lang {
-        "de" => vec!["Kühe","Haus","der","eine","Liste","grün","Tisch","läuft","wir","Straße"],
-        "en" => vec!["cows","house","the","a","list","green","table","runs","we","street","o'clock","point"],
-        "es" => vec!["vacas","casa","el","la","lista","verde","mesa","corre","nosotros","calle"],
-        "fr" => vec!["vaches","maison","le","du","l'","logement","numéro","vert","table","court","nous","rue"],
-        "it" => vec!["mucche","casa","il","la","lista","verde","tavolo","corre","noi","strada"],
-        "nl" => vec!["koeien","huis","de","het","lijst","groen","tafel","loopt","wij","straat"],
-        "pt" => vec!["vacas","casa","o","a","lista","verde","mesa","corre","nós","rua"],
+        "de" => vec!["Kühe","Haus","der","eine","Liste","grün","Tisch","läuft","wir","Straße","4x4","7h30"],
+        "en" => vec!["cows","house","the","a","list","green","table","runs","we","street","o'clock","point","4x4","2nd","3D","five-star","one-way","nine-to-five"],
+        "es" => vec!["vacas","casa","el","la","lista","verde","mesa","corre","nosotros","calle","4x4","3º"],
+        "fr" => vec!["vaches","maison","le","du","l'","logement","numéro","vert","table","court","nous","rue","4x4","2ème","7h30","deux-pièces","trois-mâts"],
+        "it" => vec!["mucche","casa","il","la","lista","verde","tavolo","corre","noi","strada","4x4","3D"],
+        "nl" => vec!["koeien","huis","de","het","lijst","groen","tafel","loopt","wij","straat","4x4","2e"],
+        "pt" => vec!["vacas","casa","o","a","lista","verde","mesa","corre","nós","rua","4x4","meia"],
         _ => panic!(),
     }
 }
@@ -71,7 +71,7 @@ pub fn vocab(lang: &str) -> Vocab {
     }
     set.insert(conjunction(lang).to_string()); set.insert(decimal_sep(lang).to_string()); set.insert(zero_word(lang).to_string());
     if lang == "en" { set.insert("o".into()); }
-    Vocab { classes, ord_class: 5, zero_class: 6, zeros, number_words: set.into_iter().collect(), linking: linking(lang), fillers: fillers(lang), conj: conjunction(lang), sep: decimal_sep(lang) }
+    Vocab { classes, ord_class: 5, zero_class: 6, zeros, number_words: set.into_iter().collect(), linking: linking(lang), fillers: fillers(lang), conj: conjunction(lang), sep: decimal_sep(lang), conj_alts: if lang == "nl" { vec!["en", "ën"] } else { vec![conjunction(lang)] } }
 }
 pub const PUNCT: [&str; 14] = [",", ".", ";", ":", "!", "?", "-", "—", "'", "(", ")", "…", "...", "/"];
 pub const SPACES: [&str; 8] = [" ", " ", " ", "  ", "\t", "\n", "\u{a0}", "\u{2009}"];
